@@ -17,6 +17,7 @@ import (
 	"sort"
 	"strings"
 	"syscall"
+	"time"
 
 	"github.com/jamespfennell/gtfs"
 	"github.com/jamespfennell/gtfs/extensions"
@@ -168,11 +169,28 @@ var c18Inputs struct {
 	zip   []byte
 }
 
+var c18Salt int
+
+// c18Init builds the inputs of one execution. Dates and ids are salted with a per-process
+// execution counter: a cache keyed by input content is then cold in every schedule, so two
+// concurrent first uses really happen (the salt changes values only, never the control flow or
+// the choice structure, so replay is unaffected).
 func c18Init() {
-	if c18Inputs.feeds == nil {
-		c18Inputs.feeds = c06Feeds()
-		c18Inputs.zip = renderFeed(genStaticFeedN(&Ctx{}, false, baseCounts, nil, nil), presentation{})
+	c18Salt++
+	day := time.Date(2024, 1, 1, 0, 0, 0, 0, time.UTC).AddDate(0, 0, c18Salt%20000)
+	date := day.Format("20060102")
+	c18Inputs.feeds = c06FeedsWith(date, fmt.Sprint(c18Salt))
+	m := genStaticFeedN(&Ctx{}, false, baseCounts, nil, nil)
+	cal := m.t("calendar.txt")
+	for r := range cal.Rows {
+		cal.set(r, "start_date", date)
+		cal.set(r, "end_date", day.AddDate(0, 1, r).Format("20060102"))
 	}
+	cd := m.t("calendar_dates.txt")
+	for r := range cd.Rows {
+		cd.set(r, "date", day.AddDate(0, 0, r+1).Format("20060102"))
+	}
+	c18Inputs.zip = renderFeed(m, presentation{})
 }
 
 func c18Harness(cfg c18Config, calls func() []c18Call) Harness {
@@ -184,14 +202,9 @@ func c18Harness(cfg c18Config, calls func() []c18Call) Harness {
 		for _, x := range cs {
 			names = append(names, x.name)
 		}
-		// solo runs on fresh options (also warms up lazily initialised library state)
+		// the concurrent run comes FIRST (on inputs this process has never seen), the solo runs on
+		// fresh options afterwards: lazily filled caches are cold when the threads meet
 		solo := make([]string, len(cs))
-		for i, x := range cs {
-			x := x
-			if !guardSig(c, "solo "+x.name, func() { solo[i] = x.run(cfg.mk()) }) {
-				return
-			}
-		}
 		raceLogNew()
 		before := raceErrors()
 		shared := cfg.mk()
@@ -209,10 +222,17 @@ func c18Harness(cfg c18Config, calls func() []c18Call) Harness {
 		}
 		trace := runThreads(c, bodies)
 		c.Steps(len(trace))
+		raceAfter := raceErrors()
+		for i, x := range cs {
+			i, x := i, x
+			if !guardSig(c, "solo "+x.name, func() { solo[i] = x.run(cfg.mk()) }) {
+				return
+			}
+		}
 		desc := fmt.Sprintf("%s: %s schedule=%s", cfg.name, strings.Join(names, " || "), trace)
 		c.Input(hash64(desc), strings.Count(trace, "0") > 0 && strings.Count(trace, "1") > 0, func() string { return desc })
 		c.Outcome(trace)
-		if n := raceErrors(); n > before {
+		if raceAfter > before {
 			for _, rep := range splitReports(raceLogNew()) {
 				sig, inRepo := raceSignature(rep)
 				if !inRepo {
